@@ -1822,7 +1822,10 @@ func (in *Interp) binop(op token.Token, xt types.Type, a, b Value, yt types.Type
 		}
 		in.abort("string op %s", op)
 	case Float:
-		y := b.(Float)
+		y, ok := b.(Float)
+		if !ok {
+			in.abort("float op %s with a non-constant operand (%T) at %s", op, b, in.where())
+		}
 		switch op {
 		case token.ADD:
 			return in.roundF(xt, x.f+y.f)
